@@ -187,3 +187,27 @@ package config
 //@   ensures E6 [C02]: result1 != nil ==> result0 == nil
 //@   opt safety [C02]
 //@   opt frame [C02]
+
+// interface stanza (C02 I2, T1-T7; C03/C05 carriers)
+//@ macro maxOf(ifi) = ite(ifi.MaxInterval == "", secs(600), pdVal(ifi.MaxInterval))
+//@ macro maxAccept(ifi) = (ifi.MaxInterval == "" || pdOK(ifi.MaxInterval)) && secs(4) <= maxOf(ifi) && maxOf(ifi) <= secs(1800)
+//@ macro minAccept(ifi) = ifi.MinInterval == "" || ifi.MinInterval == "auto" || (pdOK(ifi.MinInterval) && secs(3) <= pdVal(ifi.MinInterval) && pdVal(ifi.MinInterval) <= minUpper(maxOf(ifi)))
+//@ macro timerOf(s) = ite(s == "", 0, pdVal(s))
+//@ macro timerAccept(s) = (s == "" || pdOK(s)) && 0 <= timerOf(s) && timerOf(s) <= secs(3600)
+//@ macro hopOf(ifi) = ite(ifi.HopLimit == nil, 64, star(ifi.HopLimit))
+//@ macro lifetimeAccept(ifi) = durSpecOK(ifi.DefaultLifetime) && (durSpecVal(ifi.DefaultLifetime, 3 * maxOf(ifi)) == 0 || (maxOf(ifi) <= durSpecVal(ifi.DefaultLifetime, 3 * maxOf(ifi)) && durSpecVal(ifi.DefaultLifetime, 3 * maxOf(ifi)) <= secs(9000)))
+//@ macro headerAccept(ifi) = maxAccept(ifi) && minAccept(ifi) && timerAccept(ifi.ReachableTime) && timerAccept(ifi.RetransmitTimer) && 0 <= hopOf(ifi) && hopOf(ifi) <= 255 && lifetimeAccept(ifi) && prefStrOK(ifi.Preference)
+
+//@ func parseInterface
+//@   ghost local plugErr Iface
+//@   requires G1: sentinelsOK() && epochOK(epoch)
+//@   assigns new heap(config.Interface), new heap(plugin.Prefix), new heap(plugin.Route), new heap(plugin.RDNSS), new heap(plugin.DNSSL), new heap(plugin.MTU), new heap(plugin.LLA), new heap(plugin.CaptivePortal), new heap(plugin.PREF64), new heap(ndp.PREF64), new heap(ndp.CaptivePortal), new mem(*plugin.Prefix), new mem(*plugin.Route), new mem(plugin.Plugin), new mem(netip.Addr), new key(MD_Addr_S_empty), new key(MV_Addr_S_empty), new key(MD_Int_S_empty), new key(MV_Int_S_empty)
+//@   at call parsePlugins(pi, pm, pe) (pps, perr): ghost.plugErr = perr
+//@   ensures E1 [C02]: (result1 == nil) == (!(ifi.Monitor && ifi.Advertise) && (ifi.Monitor || (headerAccept(ifi) && ghost.plugErr == nil)))
+//@   ensures E2 [C02]: result1 == nil && ifi.Monitor ==> result0 != nil && result0.Name == name && result0.Monitor && !result0.Advertise && result0.Verbose == ifi.Verbose && len(result0.Plugins) == 0 && result0.MaxInterval == 0 && result0.DefaultLifetime == 0
+//@   ensures E3 [C02]: result1 == nil && !ifi.Monitor ==> result0 != nil && result0.Name == name && !result0.Monitor && result0.Advertise == ifi.Advertise && result0.Verbose == ifi.Verbose && result0.MaxInterval == maxOf(ifi) && result0.MinInterval == ite(ifi.MinInterval == "" || ifi.MinInterval == "auto", minDefault(maxOf(ifi)), pdVal(ifi.MinInterval)) && result0.Managed == ifi.Managed && result0.OtherConfig == ifi.OtherConfig && result0.ReachableTime == timerOf(ifi.ReachableTime) && result0.RetransmitTimer == timerOf(ifi.RetransmitTimer) && result0.HopLimit == hopOf(ifi) && result0.DefaultLifetime == durSpecVal(ifi.DefaultLifetime, 3 * maxOf(ifi)) && result0.UnicastOnly == ifi.UnicastOnly && result0.Preference == ite(ifi.Preference == "low", 3, ite(ifi.Preference == "high", 1, 0))
+//@   ensures E4 [C05]: result1 == nil && !ifi.Monitor ==> validIntervals(result0.MinInterval, result0.MaxInterval)
+//@   ensures E5 [C03,C01,C17]: result1 == nil ==> result0 != nil && fresh(result0) && headerCfgOK(star(result0)) && pluginsCfgOK(result0.Plugins)
+//@   ensures E6 [C02]: result1 != nil ==> result0 == nil
+//@   opt safety [C02]
+//@   opt frame [C02]
